@@ -43,8 +43,10 @@ def s16(v):
 class T68k(object):
     name = '68000'
     refs = ['BR', 'BSR', 'ABS', 'DATW', 'DATL']
+    refs_org = ['BR', 'ABS', 'DATW', 'PCR']
     gaps = [2, 126, 128, 130]
     org = 0x7f00
+    orglo = 0x7e80
 
     def __init__(self, pad):
         self.pad = pad
@@ -55,7 +57,7 @@ class T68k(object):
 
     def src(self, kind, lab):
         return {'BR': 'bra ' + lab, 'BSR': 'bsr ' + lab, 'ABS': 'move.w %s,d0' % lab, 'DATW': 'dc.w ' + lab, 'DATL': 'dc.l ' + lab,
-                'ODD': 'dc.b 1', 'NOP': 'nop'}[kind]
+                'PCR': 'lea %s(pc),a0' % lab, 'ODD': 'dc.b 1', 'NOP': 'nop'}[kind]
 
     def gap(self, g):
         return 'ds.b %d' % g
@@ -83,6 +85,10 @@ class T68k(object):
             if (b, mem[a + 1]) == (0x30, 0x39):
                 return 6, int.from_bytes(bytes(mem[a + 2 + i] for i in range(4)), 'big'), 0xffffffff
             raise ValueError('move.w opcode')
+        if kind == 'PCR':
+            if (b, mem[a + 1]) != (0x41, 0xfa):
+                raise ValueError('lea d16(pc) opcode')
+            return 4, (a + 2 + s16((mem[a + 2] << 8) | mem[a + 3])) & 0xffffffff, 0xffffffff
         if kind == 'DATW':
             return 2, (mem[a] << 8) | mem[a + 1], 0xffff
         if kind == 'DATL':
@@ -102,6 +108,7 @@ class T6502(object):
     refs = ['ABS', 'JMP', 'DATW', 'BNE']
     gaps = [1, 13, 14, 15, 16, 120]
     org = 0xf0
+    orglo = 0x90
     pad = 0
 
     def head(self):
@@ -193,6 +200,7 @@ class T8086(T6502):
     refs = ['JMP', 'DATW', 'JNZ']
     gaps = [1, 125, 126, 127, 128, 129, 130]
     org = 0x100
+    orglo = 0x90
 
     def head(self):
         return ['\tcpu 8086', '\torg %d' % self.org]
@@ -228,18 +236,24 @@ class T8086(T6502):
 
 
 TARGETS = {'68000-pad1': T68k(1), '68000-pad0': T68k(0), '6502': T6502(), '6809': T6809(), '8086': T8086()}
-RANGE_LIMITED = {'BNE', 'BRA', 'JNZ'}      # short-only branches: a documented 'jump distance too big' error is legitimate
+RANGE_LIMITED = {'BNE', 'BRA', 'JNZ', 'PCR'}      # short-only branches: a documented 'jump distance too big' error is legitimate
 
 
 # ---- programs -------------------------------------------------------------------------------------
 
-def programs(tname, nlab, maxbody):
-    """canonical skeletons: body = tuple of ('R',kind,label) | ('ODD',) | ('NOP',) | ('GAP',g); labels: (position, attached)"""
+def programs(tname, nlab, maxbody, org=False):
+    """canonical skeletons: body = tuple of ('R',kind,label) | ('ODD',) | ('NOP',) | ('GAP',g) | ('ORGLO',); labels: (position, attached).
+    org=True: exactly one ORG to a LOWER address in the body, so that a label later in the source can lie below its reference"""
     T = TARGETS[tname]
-    alpha = [('R', k, l) for k in T.refs for l in range(nlab)] + [('ODD',), ('NOP',)] + [('GAP', g) for g in T.gaps]
+    if org:
+        alpha = [('R', k, l) for k in getattr(T, 'refs_org', T.refs) for l in range(nlab)] + [('ODD',), ('NOP',), ('ORGLO',), ('GAP', T.gaps[-1])]
+    else:
+        alpha = [('R', k, l) for k in T.refs for l in range(nlab)] + [('ODD',), ('NOP',)] + [('GAP', g) for g in T.gaps]
     for m in range(1, maxbody + 1):
         for body in itertools.product(alpha, repeat=m):
             if not any(x[0] == 'R' for x in body):
+                continue
+            if org and sum(1 for x in body if x[0] == 'ORGLO') != 1:
                 continue
             if any(body[i][0] == 'GAP' and body[i + 1][0] == 'GAP' for i in range(m - 1)):
                 continue
@@ -251,6 +265,8 @@ def programs(tname, nlab, maxbody):
                     # attached label needs a following item on its line; two labels cannot share one line
                     if any(a and p == m for p, a in zip(pos, att)):
                         continue
+                    if any(a and body[p][0] == 'ORGLO' for p, a in zip(pos, att)):
+                        continue      # a label on the ORG line itself: not modelled
                     if nlab == 2 and pos[0] == pos[1] and att[0]:
                         continue
                     yield {'k': 'skel', 't': tname, 'body': [list(x) for x in body], 'pos': list(pos), 'att': list(att)}
@@ -276,10 +292,85 @@ def render(case):
                 txt = T.src(it[1], 'L%d' % it[2])
             elif it[0] == 'GAP':
                 txt = T.gap(it[1])
+            elif it[0] == 'ORGLO':
+                txt = 'org %d' % T.orglo
             else:
                 txt = T.src(it[0], '')
             lines.append('%s\t%s' % (attached, txt))
     return '\n'.join(lines) + '\n'
+
+
+SCOPED_T = {'6809': ('\tcpu 6809\n\torg $f0\n', {'JMP': 'jmp %s', 'DATW': 'fdb %s', 'ABS': 'lda %s', 'SBR': 'bra %s'}, 'nop', 'rmb 200'),
+            '68000': ('\tcpu 68000\n\torg $7f00\n', {'JMP': 'jsr %s', 'DATW': 'dc.w %s', 'ABS': 'move.w %s,d0', 'SBR': 'bra.s %s'}, 'nop', 'ds.b 200'),
+            '8086': ('\tcpu 8086\n\torg 100h\n', {'JMP': 'jmp %s', 'DATW': 'dw %s', 'SBR': 'loop %s'}, 'nop', 'db 200 dup (?)')}
+
+
+def scoped():
+    """one name X defined at up to three scope positions (before the section, inside it, after it), declared FORWARD / PUBLIC /
+    GLOBAL or not at all, referenced before and after its local definition and outside: which definition a reference binds
+    to must not depend on the pass in which it is looked up"""
+    for t in sorted(SCOPED_T):
+        for kind in sorted(SCOPED_T[t][1]):
+            for ob, decl, rb, ld, ra, oa, ro, gap in itertools.product((0, 1), ('', 'forward', 'public', 'global'), (0, 1), (0, 1), (0, 1), (0, 1), (0, 1), (0, 1)):
+                if not (rb or ra or ro):
+                    continue
+                yield {'k': 'scoped', 't': t, 'kind': kind, 'ob': ob, 'decl': decl, 'rb': rb, 'ld': ld, 'ra': ra, 'oa': oa, 'ro': ro, 'gap': gap}
+
+
+def render_scoped(case):
+    head, refs, nop, gap = SCOPED_T[case['t']]
+    ref = '\t' + refs[case['kind']] % 'X'
+    l = [head.rstrip('\n')]
+    if case['ob']:
+        l += ['X:\t' + nop]
+    if case['gap']:
+        l += ['\t' + gap]
+    l += ['\tsection s']
+    if case['decl']:
+        l += ['\t%s X' % case['decl']]
+    if case['rb']:
+        l += [ref]
+    if case['ld']:
+        l += ['X:\t' + nop]
+    if case['ra']:
+        l += [ref]
+    l += ['\tendsection']
+    if case['oa']:
+        l += ['X:\t' + nop]
+    if case['ro']:
+        l += [ref]
+    return '\n'.join(l) + '\n'
+
+
+def ev_scoped(case):
+    src = render_scoped(case)
+    d = describe(case)
+    res = []
+    for extra in (0, 1, 2):
+        core.fresh()
+        core.put('a.asm', src)
+        o, tr = run_asl(['-q', 'a.asm'], extra)
+        ck = core.crashkind(o)
+        if ck:
+            return core.R(False, ck, 'crash/scoped/%s' % ck, '%s on %s' % (ck, d))
+        res.append((o.rc, core.get('a.p') if o.rc == 0 else None, tr[-1][3] if tr else None, len(tr)))
+    n = sum(r[3] for r in res)
+    sig = '%s/%s' % (case['decl'] or 'undeclared', case['kind'])
+    if res[0][0] == 97:
+        return core.R(False, 'no-fixpoint', 'termination/scoped/' + sig, 'no convergence within %d passes on %s' % (MAXP, d), transitions=n)
+    if len(set(r[0] for r in res)) > 1:
+        return core.R(False, 'not-a-fixpoint', 'fixpoint/scoped/rc/' + sig, 'exit status %s without, %s / %s with forced extra passes on %s' % (res[0][0], res[1][0], res[2][0], d), transitions=n)
+    if res[0][0] != 0:
+        # FORWARD announces the name as local: with the local definition present, references inside the section see only
+        # that one from the first pass on, however far away an outer label of the same name is (manual, FORWARD)
+        if case['decl'] == 'forward' and case['ld'] and not case['ro'] and not (case['ob'] and case['oa']):      # (X twice outside: a real double definition)
+            return core.R(False, 'rejected', 'rejected/scoped/forward-declared/' + case['kind'], 'rc=%s although X is declared FORWARD and defined in the section on %s' % (res[0][0], d), transitions=n)
+        return core.R(True, 'scoped-rejected', nontrivial=False, transitions=n)
+    if res[0][1] != res[1][1] or res[0][1] != res[2][1]:
+        return core.R(False, 'not-a-fixpoint', 'fixpoint/scoped/code/' + sig, 'a forced extra pass changes the code file on %s' % d, transitions=n)
+    if res[0][2] != res[1][2] or res[0][2] != res[2][2]:
+        return core.R(False, 'not-a-fixpoint', 'fixpoint/scoped/symbols/' + sig, 'a forced extra pass changes symbol values on %s' % d, transitions=n)
+    return core.R(True, 'scoped-fixpoint-%d' % res[0][3], nontrivial=bool(case['rb']), transitions=n, states=['scoped:%s' % res[0][2]])
 
 
 def subspaces(tier):
@@ -289,6 +380,12 @@ def subspaces(tier):
         subs.append(('skeleton-%s-1label<=%d' % (tn, 3 if q else 4), programs(tn, 1, 3 if q else 4)))
     for tn in TARGETS:
         subs.append(('skeleton-%s-2labels<=%d' % (tn, 2 if q else 3), programs(tn, 2, 2 if q else 3)))
+    for tn in TARGETS:
+        subs.append(('skeleton+org-%s-1label<=%d' % (tn, 3 if q else 4), programs(tn, 1, 3 if q else 4, org=True)))
+    if not q:
+        for tn in TARGETS:
+            subs.append(('skeleton+org-%s-2labels<=3' % tn, programs(tn, 2, 3, org=True)))
+    subs.append(('sections-and-forward-declarations', scoped()))
     subs.append(('golden-corpus-extra-pass', [{'k': 'corpus', 't': t} for t in corpus.tests()]))
     return subs
 
@@ -296,6 +393,8 @@ def subspaces(tier):
 def describe(case):
     if case['k'] == 'corpus':
         return case['t'] + ' with one forced extra pass'
+    if case['k'] == 'scoped':
+        return render_scoped(case).replace('\n', ' / ')
     return render(case).replace('\n', ' / ')
 
 
@@ -325,6 +424,8 @@ def run_asl(args, extra, cwd=None):
 def evaluate(case):
     if case['k'] == 'corpus':
         return ev_corpus(case)
+    if case['k'] == 'scoped':
+        return ev_scoped(case)
     T = TARGETS[case['t']]
     src = render(case)
     core.fresh()
@@ -374,7 +475,7 @@ def evaluate(case):
                 it = body[idx]
                 kind = it[1] if it[0] == 'R' else it[0]
                 unpadded = a
-                if T.pad and kind != 'GAP' and T.wordsized(kind) and (a & 1):
+                if T.pad and kind not in ('GAP', 'ORGLO') and T.wordsized(kind) and (a & 1):
                     a += 1          # pad byte (emitted as 0 or reserved)
                 # manual (PADDING): the label on the line itself and a label alone on the line IMMEDIATELY before read the
                 # padded address; label-only lines further up keep the unpadded one
@@ -387,6 +488,8 @@ def evaluate(case):
                     labaddr[i] = unpadded if (i in keep) else a
                 if it[0] == 'GAP':
                     a += it[1]
+                elif it[0] == 'ORGLO':
+                    a = T.orglo
                 else:
                     ln, val, mask = T.decode(mem, a, kind)
                     if it[0] == 'R':
@@ -397,7 +500,7 @@ def evaluate(case):
                     labaddr[i] = a
     except (KeyError, ValueError) as e:
         return core.R(False, 'undecodable', 'decode/%s/%s' % (case['t'], kinds), 'code does not parse as the program (%r at %x) on %s' % (e, a, d), transitions=len(tr))
-    if len(mem) and max(mem) >= a and T.pad == 0:
+    if len(mem) and max(mem) >= a and T.pad == 0 and not any(x[0] == 'ORGLO' for x in body):
         return core.R(False, 'extra-code', 'decode/extra/%s' % case['t'], 'code beyond the program end on ' + d, transitions=len(tr))
     for idx, kind, lab, val, mask in refs:
         if (labaddr[lab] & mask) != (val & mask):
